@@ -461,6 +461,26 @@ pub fn install_panic_hook() {
     }));
 }
 
+/// For fuzz targets: record the message like `install_panic_hook` but still let libFuzzer see the
+/// default report of a panic that escapes (the FUZZ-VIOLATION line)
+pub fn install_panic_hook_keep_default() {
+    let default = panic::take_hook();
+    panic::set_hook(Box::new(move |info| {
+        let msg = if let Some(s) = info.payload().downcast_ref::<&str>() {
+            s.to_string()
+        } else if let Some(s) = info.payload().downcast_ref::<String>() {
+            s.clone()
+        } else {
+            "<non-string panic>".to_string()
+        };
+        let loc = info.location().map(|l| format!("{}:{}", l.file(), l.line())).unwrap_or_default();
+        LAST_PANIC.with(|p| *p.borrow_mut() = Some(format!("{} @ {}", msg, loc)));
+        if msg.starts_with("FUZZ-VIOLATION") {
+            default(info);
+        }
+    }));
+}
+
 /// Run `f`, converting a panic into Err(message @ location)
 pub fn catch<T, F: FnOnce() -> T>(f: F) -> Result<T, String> {
     match panic::catch_unwind(AssertUnwindSafe(f)) {
